@@ -24,7 +24,7 @@ EXPLANATION = ('C05 composition (paper step, not machine checked): L5.1 every ac
 
 
 def setmtu():
-    Packet.setMTU(symint('mtu', 512, 1500))
+    proto.set_mtu()
 
 
 # ------------------------------------------------------------------ L5.1 API reachability
@@ -74,7 +74,7 @@ def replay_l51(cfg, m):
     import os
     c = real('mpgameserver.connection')
     cm = real('mpgameserver.client')
-    c.Packet.setMTU(m.get('mtu', 1500))
+    proto.replay_set_mtu(c, m)
     try:
         if cfg['api'].startswith('client'):
             u = cm.UdpClient()
@@ -135,7 +135,7 @@ def l52(maxfrag):
 def replay_l52(cfg, m):
     import os
     c = real('mpgameserver.connection')
-    c.Packet.setMTU(m.get('mtu', 1500))
+    proto.replay_set_mtu(c, m)
     try:
         cn = c.ConnectionBase(False, ('p', 1))
         cn.status = c.ConnectionStatus.CONNECTED
